@@ -4,7 +4,8 @@ import random
 
 RULE = ("generated cases write a parameter file (random group names, a random triangular interaction matrix "
         "over {I,N,-}, pair cut-off entries in random order with repeats, the default line anywhere, scalar "
-        "settings incl. plain and squared cut-offs in random order, comments and blank lines), read it "
+        "settings incl. plain and squared cut-offs in random order, comments and blank lines, several default "
+        "lines, entries equal to a default, 25 % without a final newline), read it "
         "with the real read_parameter_file and compare every look-up, both ways, with the generating "
         "table; invariants are evaluated after every InteractionMatrix.add / PairwiseMatrix.add and every "
         "assignment to a cut-off. Shipped-file cases: every pair of side-chain group types the program "
